@@ -14,13 +14,19 @@ of type U?", which for the types at hand are five size comparisons and the signe
 namespace Cppcheck.ConvSpec
 open Cppcheck.ValueTypeConv
 
-/-- the sizes make sense for a C implementation: 8-bit bytes or wider, non-decreasing in rank, `int` ≥ 16 bit,
-    `long` ≥ 32 bit, `long long` ≥ 64 bit (C17 5.2.4.2.1) -/
+/-- the sizes make sense for a C implementation: 8-bit bytes or wider, sizes non-decreasing in rank, `short` and
+    `int` ≥ 16 bit, `long` ≥ 32 bit (C17 5.2.4.2.1; the 64 bits of `long long` are not demanded: platforms/pic8.xml
+    has a 32-bit `long long`).  Then "S can represent all values of U" is decided by comparing sizes. -/
 def sane (P : Plat) : Bool :=
   decide (8 ≤ P.charBit) && decide (1 ≤ P.sizeofShort) && decide (P.sizeofShort ≤ P.sizeofInt) &&
   decide (P.sizeofInt ≤ P.sizeofLong) && decide (P.sizeofLong ≤ P.sizeofLongLong) &&
   decide (16 ≤ P.charBit * P.sizeofShort) && decide (16 ≤ P.charBit * P.sizeofInt) &&
-  decide (32 ≤ P.charBit * P.sizeofLong) && decide (64 ≤ P.charBit * P.sizeofLongLong)
+  decide (32 ≤ P.charBit * P.sizeofLong)
+
+/-- the answers of a shape do not contradict each other (`int < long` or `long < long long` iff `int < long long`
+    needs sizes that are ordered; every `Plat.shape` of an ordered platform is consistent) -/
+def _root_.Cppcheck.ValueTypeConv.Shape.consistent (s : Shape) : Bool :=
+  s.intLtLLong == (s.intLtLong || s.longLtLLong) && (!s.shortLtInt || s.charLtInt)
 
 /-! ## 6.3.1.1 integer conversion rank and promotions -/
 
@@ -124,5 +130,32 @@ def specTernary (s : Shape) (cpp : Bool) (t1 t2 : CT) : CT :=
 
 /-- what `declVT` (the tool's representation) makes of a language type; the spec results are compared through it -/
 def asVT (t : CT) : VT := declVT t
+
+/-! ## The classes of inputs on which the code AS PINNED leaves the language rules
+(hypotheses of the `_partial` theorems; the check classifies every deviation of the implementation with them) -/
+
+/-- K1 (finding F7): after the integer promotions one operand is unsigned, the other is a signed type of HIGHER rank
+    that is NOT wider (on a sane platform: of the same size), e.g. `unsigned int` with `long` where
+    `sizeof(long) == sizeof(int)`.  6.3.1.8 then gives the unsigned type of the higher rank; the code gives the
+    signed one. -/
+def sameSizeDifferentRankMixedSign (s : Shape) (t1 t2 : CT) : Bool :=
+  let a := promote s t1
+  let b := promote s t2
+  !t1.isFloating && !t2.isFloating && isUnsigned s a != isUnsigned s b &&
+    (let us := if isUnsigned s a then a else b
+     let sg := if isUnsigned s a then b else a
+     decide (irank us < irank sg) && !signedHolds s sg us)
+
+/-- K2: a type below `int` that `int` cannot hold, so that it promotes to `unsigned int` (`unsigned short` where
+    `sizeof(short) == sizeof(int)`); the code promotes everything below `INT` to `signed int` -/
+def promotesToUnsigned (s : Shape) (t : CT) : Bool :=
+  promote s t == .uint && t != .uint
+
+/-- the type has rank below `int` (it is changed by the integer promotions) -/
+def belowInt (t : CT) : Bool := !t.isFloating && decide (irank t < irank .int)
+
+/-- K3: the expression is boolean-valued (`a < b`, `a && b`, `!a` …); the code types it `bool` in both languages,
+    C gives `int` -/
+def boolValued (op : BinOp) : Bool := op.cls == .cmp || op.cls == .logical
 
 end Cppcheck.ConvSpec
